@@ -137,6 +137,18 @@ class StepHooks(LibHooks):
         if fn.name == STEP_FN:
             self.backs.extend(backs)
 
+    # own record of the state-array cells written during the iteration (the J bookkeeping of LibHooks resets its own)
+    def on_store(self, st, r, off, size, val, ins):
+        LibHooks.on_store(self, st, r, off, size, val, ins)
+        if r.name == 'STATE' and size is not None and 'step_base' in st.tags:
+            st.tags['step_dirty'] = st.tags.get('step_dirty', frozenset()) | {(off.key(), size)}
+
+    def on_memset(self, st, r, off, length, byte, ins):
+        LibHooks.on_memset(self, st, r, off, length, byte, ins)
+        if r.name == 'STATE' and 'step_base' in st.tags:
+            lc = st.store.const_of(length.a) if isinstance(length, Int) else None
+            st.tags['step_dirty'] = st.tags.get('step_dirty', frozenset()) | {(off.key(), lc if lc is not None else -1)}
+
     def apply_head(self, st):
         """overwrite the parser state with the generic loop-head state of K (the orig_* snapshots are already taken)"""
         lay = self.lay
@@ -169,6 +181,7 @@ class StepHooks(LibHooks):
         cell('current_type', Int(S_['current_type'][1] * 8, Aff.sym(self.sym['k:ctype'])))
         st.tags[('dirty', 'STATE')] = frozenset()
         st.tags['step_base'] = base
+        st.tags['step_dirty'] = frozenset()
         st.tags['sig'] = ()
 
 
@@ -307,7 +320,7 @@ def outcome(C, hooks, st, kind, ret, phi_sf):
     # cells of the state array written during the iteration
     eff = {}
     fields = sorted((o, s, n) for n, (o, s) in lay.state.items())
-    dirty = st.tags.get(('dirty', 'STATE')) or frozenset()
+    dirty = st.tags.get('step_dirty') or frozenset()
     cells = st.cells('STATE') or {}
     for (okey, sz) in dirty:
         off = Aff(okey[0], dict(okey[1]))
